@@ -19,6 +19,19 @@ type Conv struct {
 	Msgs []ConvMsg `json:"msgs"`
 	// CmdEnds are the offsets just behind each complete command line / payload unit.
 	CmdEnds []int `json:"cmd_ends"`
+	// Lines are the [start, end) regions of the command LINES (end just behind the CRLF; message text and chunk payloads
+	// are not in any region).
+	Lines [][2]int `json:"lines,omitempty"`
+}
+
+// midLine reports whether offset cut lies strictly inside a command line, and where that line starts.
+func (c *Conv) midLine(cut int) (start int, ok bool) {
+	for _, l := range c.Lines {
+		if l[0] < cut && cut < l[1] {
+			return l[0], true
+		}
+	}
+	return 0, false
 }
 
 type ConvMsg struct {
@@ -46,6 +59,7 @@ func newConv(name, mode string, limit int64) *convBuilder {
 }
 
 func (b *convBuilder) cmd(s string) *convBuilder {
+	b.c.Lines = append(b.c.Lines, [2]int{len(b.c.In), len(b.c.In) + len(s) + 2})
 	b.c.In = append(b.c.In, s...)
 	b.c.In = append(b.c.In, '\r', '\n')
 	b.c.CmdEnds = append(b.c.CmdEnds, len(b.c.In))
@@ -86,6 +100,7 @@ func (b *convBuilder) bdat(chunks [][]byte, abandon bool) *convBuilder {
 	m := ConvMsg{Start: start, Abandon: abandon}
 	for i, ch := range chunks {
 		last := i == len(chunks)-1 && !abandon
+		lineStart := len(b.c.In)
 		if last {
 			m.Prefix = b.replies
 			b.c.In = append(b.c.In, fmt.Sprintf("BDAT %d LAST", len(ch))...)
@@ -95,6 +110,7 @@ func (b *convBuilder) bdat(chunks [][]byte, abandon bool) *convBuilder {
 		} else {
 			b.c.In = append(b.c.In, fmt.Sprintf("BDAT %d\r\n", len(ch))...)
 		}
+		b.c.Lines = append(b.c.Lines, [2]int{lineStart, len(b.c.In)})
 		b.c.In = append(b.c.In, ch...)
 		b.c.CmdEnds = append(b.c.CmdEnds, len(b.c.In))
 		b.replies++
@@ -118,6 +134,9 @@ func (b *convBuilder) bdat(chunks [][]byte, abandon bool) *convBuilder {
 
 // raw appends octets that are answered with n replies (a command with its payload).
 func (b *convBuilder) raw(s string, n int) *convBuilder {
+	if i := strings.Index(s, "\r\n"); i >= 0 {
+		b.c.Lines = append(b.c.Lines, [2]int{len(b.c.In), len(b.c.In) + i + 2})
+	}
 	b.c.In = append(b.c.In, s...)
 	b.c.CmdEnds = append(b.c.CmdEnds, len(b.c.In))
 	b.replies += n
@@ -169,6 +188,10 @@ func TransferCorpus() []Conv {
 			raw("BDAT 40\r\n"+strings.Repeat("y", 40), 1).raw("BDAT 5 LAST\r\nzzzzz", 1).cmd("NOOP").done())
 		out = append(out, newConv("bdat-overlimit-middle-then-empty-last", mode, 30).envelope().bdat([][]byte{[]byte("0123456789")}, true).
 			raw("BDAT 40\r\n"+strings.Repeat("y", 40), 1).raw("BDAT 0 LAST\r\n", 1).cmd("QUIT").done())
+		// chunks that are refused for a missing envelope / a bad LAST token; their payload looks like commands and must be
+		// skipped whatever happens while it arrives
+		out = append(out, newConv("bdat-refused-no-envelope", mode, 0).raw("BDAT 40\r\nMAIL FROM:<bait@x.example>\r\nNOOP\r\nNOOP\r\n", 1).cmd("NOOP").cmd("QUIT").done())
+		out = append(out, newConv("bdat-refused-bad-last", mode, 0).envelope().raw("BDAT 26 LAS\r\nRSET\r\nNOOP\r\nNOOP\r\nVRFY x\r\n", 1).cmd("NOOP").cmd("QUIT").done())
 		out = append(out, newConv("bdat-then-data", mode, 0).envelope().bdat([][]byte{[]byte("m1")}, false).envelope().data([]byte("m2\r\n.\r\n")).cmd("QUIT").done())
 		// abandoned transfers
 		for _, ab := range []string{"RSET", "QUIT", strings.TrimSuffix(hello(mode), "\r\n"), "NOOP", "MAIL FROM:<ok@c.example>", "DATA"} {
